@@ -20,7 +20,7 @@ def ckey : COpt → String
   | .autoInc => "AUTO_INCREMENT"
   | .uniq => "UNIQUE KEY"
   | .default r => "DEFAULT " ++ r
-  | .comment t => "COMMENT '" ++ t.replace "'" "''" ++ "'"
+  | .comment t => "COMMENT '" ++ doubleQuotes t ++ "'"
 
 theorem plain_key (o : Opt) (h1 : o.kind ≠ .reference) (h2 : o.kind ≠ .primaryKey) (h3 : o.hasExpr = true) :
     ∃ k, Table.optKind o = some k ∧ Opt.key o = ckey k := by
